@@ -46,17 +46,18 @@ class Check(BaseCheck):
         for c in gen.tria_stream(seed + 101, n, "small", classes=tri_classes):
             nv = len(c["v"])
             if len(np.unique(c["t"])) == nv and nv >= 6:
-                yield dict(kind="tri", v=c["v"], t=c["t"], k=int(min(nv - 2, rng.integers(3, 7))), lump=bool(rng.random() < 0.4), name=c["name"])
+                yield dict(kind="tri", v=c["v"], t=c["t"], k=int(min(nv - 2, rng.integers(3, 7))), lump=bool(rng.random() < 0.4), name=c["name"], pres=c.get("pres"), vdtype=c.get("vdtype"))
         for c in gen.tet_stream(seed + 102, max(2, n // 3), "small", modifiers=False):
             nv = len(c["v"])
             if len(np.unique(c["t"])) == nv and nv >= 6:
-                yield dict(kind="tet", v=c["v"], t=c["t"], k=int(min(nv - 2, 4)), lump=bool(rng.random() < 0.4), name=c["name"])
+                yield dict(kind="tet", v=c["v"], t=c["t"], k=int(min(nv - 2, 4)), lump=bool(rng.random() < 0.4), name=c["name"], pres=c.get("pres"), vdtype=c.get("vdtype"))
 
     def correspond(self, drv, stats):
         fails = []
         rng = gen.rng_for(self.seed, "c04c")
         for case in self.problems(self.seed, 14 if self.quick else 150):
             kind, v, t, k = case["kind"], case["v"], case["t"], case["k"]
+            gen.use(case)
             stats.case(core.mesh_key(v, t, k, case["lump"]), cls=[kind + ":" + case["name"], "k:%d" % k],
                        sample=dict(kind=kind, name=case["name"], n=len(v), k=k))
             try:
